@@ -239,6 +239,8 @@ def docs():
         "srt1": ("SRT", _head(_ex("example.srt"), "\n\n", 8)), "srt2": ("SRT", SRT2),
         "vtt1": ("WebVTT", _head(_ex("example.vtt"), "\n\n", 9)), "vtt2": ("WebVTT", VTT2),
         "dfxp1": ("DFXP", DFXP1), "dfxp2": ("DFXP", DFXP2), "dfxp_px": ("DFXP", DFXP_PX),
+        # the same document with its language tag spelled in lower case (a tag is reported as written)
+        "dfxp2_lc": ("DFXP", DFXP2.replace('xml:lang="en-US"', 'xml:lang="en-us"')),
         "sami1": ("SAMI", SAMI1), "sami4": ("SAMI", SAMI4),
         "mdvd1": ("MicroDVD", _head(_ex("example.sub"), "\n", 10)), "mdvd2": ("MicroDVD", MDVD2),
         "scc1": ("SCC", _head(_ex("example.scc"), "\n", 22)), "scc2": ("SCC", SCC2), "scc3": ("SCC", SCC3),
